@@ -679,9 +679,12 @@ func c08CheckDecode(res *engine.Result, sec *ref.S35Section, events bool) {
 func c08CheckDecodeIn(res *engine.Result, sec *ref.S35Section, events bool, reuse *[]byte) {
 	in := ref.S35Bytes(sec)
 	orig := append([]byte(nil), in...)
+	intact := func() bool { return true }
 	if reuse != nil {
 		in = append((*reuse)[:0], in...)
 		*reuse = in
+	} else {
+		in, intact = withGuard(in)
 	}
 	var obj scte35.SCTE35
 	var err error
@@ -701,6 +704,9 @@ func c08CheckDecodeIn(res *engine.Result, sec *ref.S35Section, events bool, reus
 	c08Compare(cmp, obj, sec, false)
 	if d := obj.Data(); !bytes.Equal(d, orig[1+sec.Pointer:]) {
 		cmp.failf("section", "getter Data", "Data() = % x, section = % x", d, orig[1+sec.Pointer:])
+	}
+	if !intact() {
+		cmp.failf("section", "spare capacity behind the input overwritten", "decoding or a getter wrote behind the end of the input slice (into the caller's spare capacity)")
 	}
 	res.Outcomes = append(res.Outcomes, engine.Hash64(orig))
 }
